@@ -369,6 +369,9 @@ func (fr *frame) applyContract(b *ssa.BasicBlock, st *state, ins ssa.Instruction
 	for _, cc := range all {
 		trPost := bindC(cc, st, pre, results)
 		trPost.depth = 0 // the callee's postcondition is used as stated; its spec terms are not unfolded here
+		if vc.w.db.RevealPost[vc.layer] {
+			trPost.depth = 1 // ... except in a layer that asks for it (`reveal LAYER`): facts about the components of a result
+		}
 		for _, cl := range cc.clausesFor(vc.layer) {
 			if cl.Kind != "ensures" {
 				continue
@@ -376,6 +379,7 @@ func (fr *frame) applyContract(b *ssa.BasicBlock, st *state, ins ssa.Instruction
 			c.assume(implies(bc, vc.trClause(trPost, cl)))
 		}
 	}
+	vc.lemmaInstances(pre, st, bc)
 	// ghost events emitted by the callee (definitional)
 	for _, em := range ct.Emits {
 		key := "G_" + em.Label
